@@ -146,3 +146,16 @@ MUTANTS["C14"] = [
     ("spectrum_to_flux_wave", "lentil/radiometry.py", "                    self.value = self._valueunit.to(value, unit, wave) / Meter().to(self.waveunit)", "                    self.value = self._valueunit.to(value, unit, self.wave) / Meter().to(self.waveunit)"),
     ("alias_micron", "lentil/radiometry.py", "        elif name.lower() in ['um', 'micron']:\n            return Micron()", "        elif name.lower() in ['um']:\n            return Micron()\n        elif name.lower() == 'micron':\n            return Nanometer()"),
 ]
+MUTANTS["C15"] = [
+    ("crop_strict", "lentil/radiometry.py", "            indx = np.where(min_wave > self.wave)", "            indx = np.where(min_wave >= self.wave)"),
+    ("trim_ge", "lentil/radiometry.py", "        index = np.where(normval > tol)", "        index = np.where(normval >= tol)"),
+    ("pad_dup_end", "lentil/radiometry.py", "        rightwave = np.linspace(maxwave, ends[1], nright)\n        rightwave = np.delete(rightwave, 0)", "        rightwave = np.linspace(maxwave, ends[1], nright)"),
+    ("simpson_weights", "lentil/radiometry.py", "((x[k+1]-x[k-1])/6) * (f[k-1]+4*f[k]+f[k+1])", "((x[k+1]-x[k-1])/4) * (f[k-1]+2*f[k]+f[k+1])"),
+    ("integrate_lt_end", "lentil/radiometry.py", "                                 np.where(self.wave <= end))", "                                 np.where(self.wave < end))"),
+    ("resample_not_atomic", "lentil/radiometry.py", "        # rejected grid leaves wave and value consistent\n        self.wave = wave\n        self.value = value\n        self.waveunit = waveunit", "        # rejected grid leaves wave and value consistent\n        self.value = value\n        self.wave = wave\n        self.waveunit = waveunit"),
+    ("bin_inside_edges", "lentil/radiometry.py", "                x = np.concatenate([[wave[0]], x, [wave[-1]]])", "                x = np.concatenate([[wave[0]-dx[0]], x, [wave[-1]]])"),
+    ("preserve_uses_full", "lentil/radiometry.py", "norm_factor = spectrum.integrate(np.min(wave), np.max(wave), method=interp_method)/np.sum(bins)", "norm_factor = spectrum.integrate(method=interp_method)/np.sum(bins)"),
+    ("append_value_first", "lentil/radiometry.py", "            self.wave = np.append(self.wave, other.wave)\n            self.value = np.append(self.value, other.value)", "            self.value = np.append(self.value, other.value)\n            self.wave = np.append(self.wave, other.wave)"),
+    ("trim_drops_last", "lentil/radiometry.py", "        self.wave = self.wave[index_min:index_max+1]\n        self.value = self.value[index_min:index_max+1]", "        self.wave = self.wave[index_min:index_max+1]\n        self.value = self.value[index_min:index_max+1] if index_max + 1 < len(self.value) else self.value[index_min:]"),
+    ("pad_edge_swapped", "lentil/radiometry.py", "            values = np.array([self.value[0], self.value[-1]])", "            values = np.array([self.value[-1], self.value[0]])"),
+]
